@@ -456,6 +456,61 @@ def check_sort(ctx, c):
 
 # ----------------------------------------------------------------------------- driver
 
+
+# ----------------------------------------------------------------------------- P5 same-named readouts trained side by side
+
+def gen_twins(g):
+    return {"kind": "twins", "d": g.randint(1, 3), "o": g.randint(1, 2), "ridge": g.choice([1.0, 0.5, 0.125]),
+            "via": g.choice(["deepcopy", "pickle", "deepcopy_of_deepcopy"]), "n": g.randint(2, 3), "rounds": g.randint(2, 3),
+            "seed": g.randint(0, 10 ** 9)}
+
+
+def check_twins(ctx, c):
+    """several clones of ONE readout (deep copies and unpickled nodes all carry the name `<name>-(copy)`), each trained by
+    successive partial fits on its own dataset, the partial fits of the clones interleaved: every clone ends with the
+    optimum of exactly its own time steps - nothing lost, nothing of a neighbour counted in"""
+    import copy
+    import pickle
+    from reservoirpy.nodes import Ridge
+    ob = "same_named_clones"
+    g = common.Gen(c["seed"])
+    base = Ridge(ridge=c["ridge"])
+    clones = []
+    for i in range(c["n"]):
+        if c["via"] == "pickle":
+            clones.append(pickle.loads(pickle.dumps(base)))
+        elif c["via"] == "deepcopy":
+            clones.append(copy.deepcopy(base))
+        else:
+            clones.append(copy.deepcopy(copy.deepcopy(base)) if i else copy.deepcopy(base))
+    data = [[(np.array(flow_rows(g, L, c["d"])), np.array(flow_rows(g, L, c["o"]))) for L in [g.randint(4, 8) for _ in range(c["rounds"])]]
+            for _ in clones]
+    res = []
+    try:
+        for r_ in range(c["rounds"]):
+            for cl, ds in zip(clones, data):
+                cl.partial_fit(*ds[r_])
+        for cl in clones:
+            cl.fit()
+    except Exception as ex:  # noqa
+        return ob, [("oracle", f"interleaved partial fits of {c['n']} clones ({c['via']}) of one readout raised {type(ex).__name__}: {ex}")]
+    for i, (cl, ds) in enumerate(zip(clones, data)):
+        f = Ridge(ridge=c["ridge"])
+        f.fit([x for x, _ in ds], [y for _, y in ds])
+        got = np.vstack([np.asarray(cl.bias).reshape(1, -1), np.asarray(cl.Wout)])
+        exp = np.vstack([np.asarray(f.bias).reshape(1, -1), np.asarray(f.Wout)])
+        if got.shape != exp.shape or not np.allclose(got, exp, rtol=1e-9, atol=1e-9):
+            res.append(("oracle", f"{c['n']} clones ({c['via']}) of one readout trained side by side by interleaved partial fits: clone {i} "
+                                  f"(name {cl.name!r}) does not end with the optimum of its own time steps (max difference "
+                                  f"{float(np.max(np.abs(got - exp))) if got.shape == exp.shape else 'shape'}): contributions were lost or a neighbour's were counted in"))
+            break
+    return ob, res
+
+
+def flow_rows(g, L, d):
+    return [[float(g.dy(a=2, k=6)) for _ in range(d)] for _ in range(L)]
+
+
 def check_cases(ctx, cases):
     common.quiet()
     import reservoirpy.utils._verif as hook
@@ -472,6 +527,8 @@ def check_cases(ctx, cases):
             ob, res = check_legacy(ctx, c)
         elif k == "sort":
             ob, res = check_sort(ctx, c)
+        elif k == "twins":
+            ob, res = check_twins(ctx, c)
         else:
             raise common.FrameworkError("unknown case kind " + k)
         ctx.count(c, nontrivial=True, obligation=ob)
@@ -502,6 +559,7 @@ def run(ctx):
     cases += [gen_esn(g, heavy) for _ in range(ctx.n(24, 160))]
     cases += [gen_legacy(g, heavy) for _ in range(ctx.n(10, 60))]
     cases += [gen_sort(g) for _ in range(ctx.n(40, 400))]
+    cases += [gen_twins(g) for _ in range(ctx.n(12, 120))]
     if not heavy:
         cases.append({"kind": "esn", "units": 6, "K": 4, "lens": [10, 12, 9, 11], "workers": 2, "backend": "loky", "feedback": False, "warmup": 0,
                       "seed": 3, "dseed": 4})
